@@ -1148,3 +1148,56 @@ Proof.
   pose proof (shadow_run_keys c es init [] (fn_inv_init c) Hok0 Hr0 He H0) as [_ Hk].
   exact (Hk k).
 Qed.
+
+
+
+(* ---------- the whole history as one list of changes ---------- *)
+
+Fixpoint all_changes (c : cfg) (s : state) (es : list event) : list change :=
+  match es with
+  | [] => []
+  | e :: r => snd (fst (step c s e)) +++ all_changes c (step_state c s e) r
+  end.
+
+Lemma shadow_run_as_fold c : forall es s sh, shadow_run c s sh es = fold_left apply_change (all_changes c s es) sh.
+Proof.
+  induction es as [|e r IH]; intros s sh; cbn [shadow_run all_changes fold_left]; [reflexivity|].
+  rewrite fold_left_app. apply IH.
+Qed.
+
+(* the operation of the last change about a key *)
+Fixpoint last_op (k : string) (cs : list change) (acc : option op) : option op :=
+  match cs with
+  | [] => acc
+  | x :: r => last_op k r (if String.eqb (ckey x) k then Some (c_op x) else acc)
+  end.
+
+Lemma keys_fold_last_op k : forall cs sh, wf sh ->
+  (In k (keys (fold_left apply_change cs sh)) <->
+   match last_op k cs None with
+   | Some AddOrUpdate => True
+   | Some Delete => False
+   | None => In k (keys sh)
+   end).
+Proof.
+  assert (Hacc : forall cs acc, last_op k cs acc = match last_op k cs None with Some o => Some o | None => acc end).
+  { induction cs as [|x r IH]; intros acc; cbn [last_op]; [reflexivity|].
+    rewrite (IH (if String.eqb (ckey x) k then Some (c_op x) else acc)), (IH (if String.eqb (ckey x) k then Some (c_op x) else None)).
+    destruct (last_op k r None); [reflexivity|]. destruct (String.eqb (ckey x) k); reflexivity. }
+  induction cs as [|x r IH]; intros sh W; cbn [fold_left last_op]; [tauto|].
+  rewrite (IH (apply_change sh x) (wf_apply_change sh x W)).
+  rewrite (Hacc r (if String.eqb (ckey x) k then Some (c_op x) else None)).
+  destruct (last_op k r None) as [o|] eqn:Hl; [reflexivity|].
+  rewrite (keys_apply_change sh x k W). destruct (String.eqb (ckey x) k); [|reflexivity].
+  unfold is_delete. destruct (c_op x); split; auto; try discriminate; intros [].
+Qed.
+
+(* C05 (change level): for every history, a resource is active iff the most recent change the controller
+   has been handed about it is an addOrUpdate *)
+Theorem active_iff_last_change_is_update c es : Forall ev_role es ->
+  forall k, In k (keys (get_resources (run c es))) <-> last_op k (all_changes c init es) None = Some AddOrUpdate.
+Proof.
+  intros He k. rewrite <- (applied_keys_are_active c es He k), shadow_run_as_fold.
+  rewrite (keys_fold_last_op k (all_changes c init es) [] ltac:(constructor)).
+  destruct (last_op k (all_changes c init es) None) as [[|]|]; split; try tauto; try discriminate; try (intros []); auto.
+Qed.
